@@ -83,7 +83,7 @@ std::string gen_chain(Rng &r, const World &w, int maxel) {
             int m = (int)r.range(1, 4);
             for (int k = 0; k < m; k++) { if (k) el += ","; el += (r.chance(1, 2) && !w.procs.empty()) ? w.procs[r.below(w.procs.size())].comm : gen_comm(r); }
             break; }
-        case 7: el = "nosuchfilter" + std::string(r.chance(1, 2) ? ":x" : ""); break;
+        case 7: { static const char *odd[] = {"nosuchfilter", "nosuchfilter:x", "only_uid", "exclude_uid", "exclude_spawns_of", "only_root:ignored", "noop:x"}; el = odd[r.below(7)]; break; }
         default: el = ""; break;
         }
         // the INI layer cuts at ';' after white space and strips the ends: keep elements free of that
